@@ -23,13 +23,13 @@ type Op struct {
 
 func (o Op) String() string { return o.Kind + "=" + o.Arg }
 
-func Out(b string) Op     { return Op{"o", hex.EncodeToString([]byte(b))} }
-func Err(b string) Op     { return Op{"e", hex.EncodeToString([]byte(b))} }
-func Pause(ms int) Op     { return Op{"p", strconv.Itoa(ms)} }
-func Env(name string) Op  { return Op{"env", name} }
-func Exit(code int) Op    { return Op{"x", strconv.Itoa(code)} }
-func Signal(sig int) Op   { return Op{"s", strconv.Itoa(sig)} }
-func Generate(g Gen) Op   { return Op{"g", g.String()} }
+func Out(b string) Op      { return Op{"o", hex.EncodeToString([]byte(b))} }
+func Err(b string) Op      { return Op{"e", hex.EncodeToString([]byte(b))} }
+func Pause(ms int) Op      { return Op{"p", strconv.Itoa(ms)} }
+func Env(name string) Op   { return Op{"env", name} }
+func Exit(code int) Op     { return Op{"x", strconv.Itoa(code)} }
+func Signal(sig int) Op    { return Op{"s", strconv.Itoa(sig)} }
+func Generate(g Gen) Op    { return Op{"g", g.String()} }
 func Together(a, b Gen) Op { return Op{"j", a.String() + "|" + b.String()} }
 
 func Args(ops []Op) []string {
